@@ -52,6 +52,17 @@ def run(prop, tier, seed, replay=None):
         v.cov["edge_graph"] = {"states": len(g.states), "edges": g.nedges, "covering_walks": len(walks)}
         if tier == "quick" and len(walks) > 1200:
             rng.shuffle(walks)
+            # keep the walks in which the tracker is asked again after a reply that announced a long wait
+
+            def asked_again(w):
+                acts = [g.scenario(w, "")["steps"][k]["a"] for k in range(len(w))]
+                for k, a in enumerate(acts):
+                    if a["a"] == "AnnounceEnd" and a.get("r") in ("never", "reason30", "ok3600"):
+                        if any(b["a"] == "AnnounceBegin" for b in acts[k + 1:]):
+                            return True
+                return False
+            walks.sort(key=lambda w: not asked_again(w))
+            v.cov["walks_asking_again_after_long_wait"] = sum(1 for w in walks[:1200] if asked_again(w))
             walks = walks[:1200]
         for k, w in enumerate(walks):
             sc = g.scenario(w, "")
